@@ -64,11 +64,29 @@ func (m *charsetModel) isSnifferMap(v ssa.Value) bool {
 // function, and nil for any other string.
 func (m *charsetModel) findDispatch(c *core.Ctx) {
 	for _, f := range c.SrcFuncs() {
-		if core.FuncPkg(f) == nil || core.FuncPkg(f).Pkg.Path() != core.PkgRoot || len(f.Params) != 1 || !core.IsString(f.Params[0].Type()) || f.Signature.Results().Len() != 1 {
+		if core.FuncPkg(f) == nil || !core.InMod(f) || len(f.Params) != 1 || !core.IsString(f.Params[0].Type()) || f.Signature.Results().Len() != 1 {
 			continue
 		}
 		sig, ok := f.Signature.Results().At(0).Type().Underlying().(*types.Signature)
 		if !ok || sig.Params().Len() != 1 || !core.IsByteSlice(sig.Params().At(0).Type()) || sig.Results().Len() != 1 || !core.IsString(sig.Results().At(0).Type()) {
+			continue
+		}
+		// accessor of a package-level table: return table[name], the table a map literal of the package initialiser
+		// that nothing else writes; a name without an entry yields nil
+		if sn := tableAccessor(c, f); sn != nil {
+			if m.dispFn != nil {
+				core.Bail("two sniffer selection functions: %s and %s", m.dispFn.Name(), f.Name())
+			}
+			m.dispFn = f
+			m.sniffers = sn
+			m.snifKeys = nil
+			for k := range sn {
+				m.snifKeys = append(m.snifKeys, k)
+			}
+			sort.Strings(m.snifKeys)
+			continue
+		}
+		if core.FuncPkg(f).Pkg.Path() != core.PkgRoot {
 			continue
 		}
 		keys := []string{}
@@ -126,6 +144,71 @@ func (m *charsetModel) findDispatch(c *core.Ctx) {
 		}
 		sort.Strings(m.snifKeys)
 	}
+}
+
+// tableAccessor: f is `return table[name]` over a package-level map from type
+// names to sniffer functions, built once by the package initialiser from
+// constant keys and function constants and written nowhere else.
+func tableAccessor(c *core.Ctx, f *ssa.Function) map[string]*ssa.Function {
+	if len(f.Blocks) != 1 {
+		return nil
+	}
+	rs := core.Returns(f)
+	if len(rs) != 1 {
+		return nil
+	}
+	lk, ok := rs[0].Results[0].(*ssa.Lookup)
+	if !ok || lk.CommaOk || lk.Index != ssa.Value(f.Params[0]) {
+		return nil
+	}
+	g, ok := core.LoadOfGlobal(lk.X)
+	if !ok {
+		return nil
+	}
+	// the only store to the global: in init, a MakeMap filled by constant updates
+	var mk *ssa.MakeMap
+	for _, h := range c.AllModFuncs() {
+		for _, b := range h.Blocks {
+			for _, in := range b.Instrs {
+				if st, ok := in.(*ssa.Store); ok && st.Addr == ssa.Value(g) {
+					if !(h.Name() == "init" && h.Synthetic != "") || mk != nil {
+						return nil
+					}
+					mk, _ = st.Val.(*ssa.MakeMap)
+					if mk == nil {
+						return nil
+					}
+				}
+				if mu, ok := in.(*ssa.MapUpdate); ok {
+					if g2, isG := core.LoadOfGlobal(mu.Map); isG && g2 == g {
+						return nil // written through the variable
+					}
+				}
+			}
+		}
+	}
+	if mk == nil {
+		return nil
+	}
+	sn := map[string]*ssa.Function{}
+	for _, ref := range *mk.Referrers() {
+		switch x := ref.(type) {
+		case *ssa.MapUpdate:
+			k, okK := core.ConstString(x.Key)
+			fn, okF := core.Unwrap(x.Value).(*ssa.Function)
+			if !okK || !okF {
+				return nil
+			}
+			sn[k] = fn
+		case *ssa.Store, *ssa.DebugRef:
+		default:
+			return nil
+		}
+	}
+	if len(sn) == 0 {
+		return nil
+	}
+	return sn
 }
 
 // findDirect looks for the inline form: one function of the root package calls
